@@ -106,6 +106,11 @@ fn run_bitops<R: BufRead + Clone>(mut r: rbsp::BitReader<R>, ops: &str, out: &mu
                         }
                     }
                     out.push(format!("R:{}", n - left));
+                    if left > 0 {
+                        // the inner reader ended or failed before n bytes: what the stack does after that is not part of
+                        // the protocol (the model abstracts the byte source by what it delivers before its first error)
+                        return;
+                    }
                 }
             }
         } else if op == "t8" {
